@@ -115,6 +115,9 @@ func checkAlternation(rep *vh.Report, kind string, evts []lifeEvt) {
 // ---- TCP client: the harness is the server ----
 
 func c14tcpClient(rep *vh.Report, seed uint64, idx int) {
+	if aborted() {
+		return
+	}
 	r := vh.Sub(seed, fmt.Sprintf("c14-tcpc-%d", idx))
 	ln, err := net.Listen("tcp4", "127.0.0.1:0")
 	if err != nil {
@@ -210,7 +213,9 @@ func c14tcpClient(rep *vh.Report, seed uint64, idx int) {
 		waitFor(func() bool { return life.count(false) > f }, life.progress, 2*time.Second)
 	}
 	evts := life.snapshot() // once the node is closing events may be dropped: only what arrived before counts
-	node.Close()
+	if !safeClose(rep, node) {
+		return
+	}
 	ln.Close()
 	<-life.done
 	checkAlternation(rep, "tcp-client", evts)
@@ -249,6 +254,9 @@ func c14tcpClient(rep *vh.Report, seed uint64, idx int) {
 // ---- serial through the fake opener ----
 
 func c14serial(rep *vh.Report, seed uint64, idx int) {
+	if aborted() {
+		return
+	}
 	r := vh.Sub(seed, fmt.Sprintf("c14-serial-%d", idx))
 	sf := &serialFake{errOpen: errors.New("serial open failed")}
 	var opensMu sync.Mutex
@@ -303,7 +311,9 @@ func c14serial(rep *vh.Report, seed uint64, idx int) {
 	waitFor(func() bool { return life.count(true) > nFail }, life.progress, 2*time.Second)
 	evts := life.snapshot()
 	opensBeforeClose := life.count(true)
-	node.Close()
+	if !safeClose(rep, node) {
+		return
+	}
 	<-life.done
 	checkAlternation(rep, "serial", evts)
 	ci := 0
@@ -359,6 +369,9 @@ func c14serial(rep *vh.Report, seed uint64, idx int) {
 // ---- custom endpoint: cause reported, one channel at a time ----
 
 func c14custom(rep *vh.Report, seed uint64, idx int) {
+	if aborted() {
+		return
+	}
 	r := vh.Sub(seed, fmt.Sprintf("c14-custom-%d", idx))
 	tr := fake.NewTransport("c14")
 	node := &gomavlib.Node{Endpoints: []gomavlib.EndpointConf{gomavlib.EndpointCustom{ReadWriteCloser: tr}}, Dialect: testDialect, OutVersion: gomavlib.V2, OutSystemID: 33, HeartbeatDisable: true}
@@ -381,7 +394,9 @@ func c14custom(rep *vh.Report, seed uint64, idx int) {
 		waitFor(func() bool { return life.count(false) > f }, life.progress, time.Second)
 	}
 	evts := life.snapshot()
-	node.Close()
+	if !safeClose(rep, node) {
+		return
+	}
 	<-life.done
 	checkAlternation(rep, "custom", evts)
 	ci := 0
@@ -404,6 +419,9 @@ func c14custom(rep *vh.Report, seed uint64, idx int) {
 // ---- servers: every peer its own channel, listener keeps accepting ----
 
 func c14servers(rep *vh.Report, seed uint64, idx int) {
+	if aborted() {
+		return
+	}
 	r := vh.Sub(seed, fmt.Sprintf("c14-srv-%d", idx))
 	tport, uport := freeTCPPort(), freeUDPPort()
 	node := &gomavlib.Node{Endpoints: []gomavlib.EndpointConf{gomavlib.EndpointTCPServer{Address: fmt.Sprintf("127.0.0.1:%d", tport)},
@@ -458,7 +476,9 @@ func c14servers(rep *vh.Report, seed uint64, idx int) {
 	}
 	waitFor(func() bool { return life.count(false) >= tcpClosed }, life.progress, 1500*time.Millisecond)
 	evts := life.snapshot() // close events caused by the node's own Close carry no error and are not looked at
-	node.Close()
+	if !safeClose(rep, node) {
+		return
+	}
 	<-life.done
 	seenCh := map[*gomavlib.Channel]bool{}
 	seenLabel := map[string]int{}
@@ -485,6 +505,9 @@ func c14servers(rep *vh.Report, seed uint64, idx int) {
 // ---- idle expiry ----
 
 func c14idle(rep *vh.Report, seed uint64, idx int, kind string) {
+	if aborted() {
+		return
+	}
 	T := 300 * time.Millisecond
 	var node *gomavlib.Node
 	var conn net.Conn
@@ -506,7 +529,9 @@ func c14idle(rep *vh.Report, seed uint64, idx int, kind string) {
 		}
 		c, err := net.Dial(network, fmt.Sprintf("127.0.0.1:%d", port))
 		if err != nil {
-			node.Close()
+			if !safeClose(rep, node) {
+				return
+			}
 			return
 		}
 		conn = c
@@ -524,7 +549,9 @@ func c14idle(rep *vh.Report, seed uint64, idx int, kind string) {
 		}
 		c, err := l.Accept()
 		if err != nil {
-			node.Close()
+			if !safeClose(rep, node) {
+				return
+			}
 			return
 		}
 		conn = c
@@ -546,7 +573,9 @@ func c14idle(rep *vh.Report, seed uint64, idx int, kind string) {
 		_, a, err := p.ReadFrom(buf)
 		if err != nil {
 			rep.Inconclusive("C14 idle udp-client: no datagram from the node")
-			node.Close()
+			if !safeClose(rep, node) {
+				return
+			}
 			p.Close()
 			return
 		}
@@ -638,7 +667,9 @@ func c14idle(rep *vh.Report, seed uint64, idx int, kind string) {
 		}
 		rep.Count("idle_reconnects_checked", 1)
 	}
-	node.Close()
+	if !safeClose(rep, node) {
+		return
+	}
 	<-life.done
 	if conn != nil {
 		conn.Close()
@@ -788,6 +819,9 @@ func TestC14(t *testing.T) {
 // c14dialTimeout: connection attempts that get NO answer (they time out after ReadTimeout instead of being refused)
 // are failed connection attempts too: the client must keep retrying and connect once the server answers again.
 func c14dialTimeout(rep *vh.Report, seed uint64, idx int) {
+	if aborted() {
+		return
+	}
 	fd, err := syscall.Socket(syscall.AF_INET, syscall.SOCK_STREAM, 0)
 	if err != nil {
 		rep.Inconclusive("C14 dial-timeout: no raw socket")
@@ -837,7 +871,9 @@ func c14dialTimeout(rep *vh.Report, seed uint64, idx int) {
 	time.Sleep(700 * time.Millisecond)
 	if life.count(true) != 0 {
 		rep.Inconclusive("C14 dial-timeout: the node connected although the queue was full")
-		node.Close()
+		if !safeClose(rep, node) {
+			return
+		}
 		<-life.done
 		return
 	}
@@ -861,7 +897,9 @@ func c14dialTimeout(rep *vh.Report, seed uint64, idx int) {
 		rep.Violation("ep=tcp-client what=no-reconnect", "after connection attempts that timed out (no answer for ReadTimeout) the client endpoint never connected although the server answers again", nil)
 	}
 	close(stop)
-	node.Close()
+	if !safeClose(rep, node) {
+		return
+	}
 	<-life.done
 	rep.Eval(1)
 	rep.Count("dial_timeout_runs", 1)
